@@ -375,7 +375,7 @@ class Context:
             ):
                 return UNDEFINED
 
-            descriptor = JSObject()
+            descriptor = JSObject(object_prototype)  # an ordinary object
 
             getter = obj._getters.get(prop_name)
             setter = obj._setters.get(prop_name)
